@@ -41,6 +41,7 @@ var run *vlib.Run
 type recWriter struct {
 	mu     sync.Mutex
 	writes [][]byte
+	held   []byte                        // the entry a gated Write call is holding
 	gate   atomic.Pointer[chan struct{}] // when set, Write blocks until the channel is closed
 	delay  time.Duration
 	prefix bool
@@ -48,7 +49,14 @@ type recWriter struct {
 
 func (w *recWriter) Write(v []byte) {
 	if g := w.gate.Load(); g != nil {
+		// handed over (the call has been made) though not yet completed
+		w.mu.Lock()
+		w.held = append([]byte(nil), v...)
+		w.mu.Unlock()
 		<-*g
+		w.mu.Lock()
+		w.held = nil
+		w.mu.Unlock()
 	}
 	if w.delay > 0 {
 		time.Sleep(w.delay)
@@ -63,6 +71,17 @@ func (w *recWriter) snapshot() [][]byte {
 	w.mu.Lock()
 	defer w.mu.Unlock()
 	return append([][]byte(nil), w.writes...)
+}
+
+// handedOver: the completed writes plus the entry a gated Write has been called with.
+func (w *recWriter) handedOver() [][]byte {
+	w.mu.Lock()
+	defer w.mu.Unlock()
+	out := append([][]byte(nil), w.writes...)
+	if w.held != nil {
+		out = append(out, w.held)
+	}
+	return out
 }
 func (w *recWriter) reset() { w.mu.Lock(); w.writes = nil; w.mu.Unlock() }
 
@@ -193,6 +212,18 @@ func naturalTrial(spec trialSpec) {
 	run.Eval(1)
 }
 
+// awaitFlushRequest waits until the flusher has been asked to flush; false when FlushLogger came
+// back without ever asking (it may not: the flusher can be holding an entry inside the writer).
+func awaitFlushRequest(returned *atomic.Bool) bool {
+	for !rogger.VerifFlushRequested() {
+		if returned.Load() {
+			return rogger.VerifFlushRequested()
+		}
+		runtime.Gosched()
+	}
+	return true
+}
+
 // occupancyTrial: the writer is gated so that `occ` entries wait in the queue when the flush is
 // requested; the gate opens right after the request.
 func occupancyTrial(spec trialSpec) {
@@ -205,18 +236,28 @@ func occupancyTrial(spec trialSpec) {
 		logEntry(spec, 0, i)
 	}
 	done := make(chan time.Duration, 1)
+	var returned atomic.Bool
 	go func() {
 		t0 := time.Now()
 		rogger.FlushLogger()
-		done <- time.Since(t0)
+		d := time.Since(t0)
+		returned.Store(true)
+		done <- d
 	}()
-	for !rogger.VerifFlushRequested() {
-		runtime.Gosched()
+	spec.Kind = fmt.Sprintf("%s-%d", spec.Kind, spec.Occupancy)
+	if !awaitFlushRequest(&returned) {
+		// back already, the writer still gated: what has been handed over now is all that was
+		snap := rec.handedOver()
+		rec.gate.Store(nil)
+		close(gate)
+		judge(spec, snap, <-done)
+		rogger.VerifResetFlush()
+		run.Eval(1)
+		return
 	}
 	rec.gate.Store(nil)
 	close(gate)
 	d := <-done
-	spec.Kind = fmt.Sprintf("%s-%d", spec.Kind, spec.Occupancy)
 	judge(spec, rec.snapshot(), d)
 	rogger.VerifResetFlush()
 	run.Eval(1)
@@ -236,9 +277,16 @@ func doubleFlushTrial(spec trialSpec) {
 		logEntry(spec, 0, i)
 	}
 	first := make(chan struct{})
-	go func() { rogger.FlushLogger(); close(first) }()
-	for !rogger.VerifFlushRequested() {
-		runtime.Gosched()
+	var firstBack atomic.Bool
+	go func() { rogger.FlushLogger(); firstBack.Store(true); close(first) }()
+	if !awaitFlushRequest(&firstBack) {
+		snap := rec.handedOver()
+		rec.gate.Store(nil)
+		close(gate)
+		run.Eval(1)
+		judge(spec, snap, time.Millisecond)
+		rogger.VerifResetFlush()
+		return
 	}
 	second := make(chan struct{})
 	go func() { rogger.FlushLogger(); close(second) }()
@@ -295,13 +343,22 @@ func forcedTrial(spec trialSpec) {
 	// flusher is now between the non-blocking poll (queue was empty) and the blocking select
 	logEntry(spec, 0, 1) // returns: the entry is in the queue
 	done := make(chan time.Duration, 1)
+	var returned atomic.Bool
 	go func() {
 		t0 := time.Now()
 		rogger.FlushLogger()
-		done <- time.Since(t0)
+		d := time.Since(t0)
+		returned.Store(true)
+		done <- d
 	}()
-	for !rogger.VerifFlushRequested() {
-		runtime.Gosched()
+	if !awaitFlushRequest(&returned) {
+		snap := rec.handedOver()
+		close(proceed)
+		vhook.Set("rogger.flush.between", nil)
+		judge(spec, snap, <-done)
+		rogger.VerifResetFlush()
+		run.Eval(1)
+		return
 	}
 	close(proceed) // both the queue and the flush request are ready now
 	d := <-done
